@@ -7,6 +7,7 @@ var commonAssume = []string{
 	"bufio.Scanner line splitting (ScanLines: split at \\n, one trailing \\r dropped, ErrTooLong over 64 KiB) is trusted, not executed; item texts do not end in \\r",
 	"fmt.Fprint/Sprintf modelled as concatenation + one Write on the destination",
 	"no memory model (data races are outside every claim)",
+	"opaque strings (names, branch strings, extensions, rows) are shorter than 2^30 bytes",
 }
 
 const parseContract = "Parser.Parse replaced by its contract at tree level (item row -> depth+1,text; blank -> ErrBlankLine; no bullet / bad indentation -> ErrIncorrectFormat; empty text -> ErrEmptyText); the contract is itself discharged at byte level on the real parser by the L-parse jobs of C15"
@@ -131,7 +132,7 @@ func allChecksRaw() []*Check {
 		},
 		{
 			ID:    "C13",
-			Files: files(filesProg, []string{"gtree/c13.go"}),
+			Files: files(filesProg, filesVFS, []string{"gtree/c13.go"}),
 			Quick: []Job{
 				gjf("C13.hist.n4", "VerifC13", 4, "C13.add", "C13.fn", "C13.idem", "C13.md", "C13.nil", "C13.end"),
 				gjf("C13.hist.n3.emptynames", "VerifC13", 13, "C13.add", "C13.fn", "C13.idem", "C13.end"),
@@ -166,6 +167,7 @@ func allChecksRaw() []*Check {
 				{Name: "C12.empty", Pkg: "gtree", Entry: "VerifC12Empty", N: 0, FSModel: true, Expect: []string{"C12.empty.nil", "C12.empty.nothing", "C12.empty.end"}},
 				{Name: "C12.rows.1x3", Pkg: "gtree", Entry: "VerifC12Rows", N: 13, FSModel: true, RealParse: true, Expect: []string{"C12.returned", "C12.empty.nil", "C12.accepted.nonempty"}},
 				{Name: "C12.rows.2x1", Pkg: "gtree", Entry: "VerifC12Rows", N: 21, FSModel: true, RealParse: true, Expect: []string{"C12.returned", "C12.empty.nil"}},
+				{Name: "C12.rows.1x2.allbytes", Pkg: "gtree", Entry: "VerifC12Rows", N: 112, FSModel: true, RealParse: true, Expect: []string{"C12.returned", "C12.empty.nil"}},
 			},
 			Thorough: []Job{
 				{Name: "C12.empty", Pkg: "gtree", Entry: "VerifC12Empty", N: 0, FSModel: true, Expect: []string{"C12.empty.nil", "C12.empty.nothing", "C12.empty.end"}},
@@ -270,6 +272,7 @@ func allChecksRaw() []*Check {
 				gjf("C10.text.n3.fifo", "VerifC10", 13, "C10.err/text", "C10.same/text", "C10.noleak", "C10.end"),
 				{Name: "C10.n2.lifo-lastsel", Pkg: "gtree", Entry: "VerifC10", N: 2, FSModel: true, Sched: "lifo-lastsel", Expect: []string{"C10.err/text", "C10.same/text", "C10.noleak", "C10.end"}},
 				{Name: "C10.text.n3.fifo-wyield", Pkg: "gtree", Entry: "VerifC10", N: 13, FSModel: true, Sched: "fifo-wyield", Expect: []string{"C10.err/text", "C10.same/text", "C10.noleak", "C10.end"}},
+				gjf("C10.bullets.n3.fifo", "VerifC10", 113, "C10.err/text", "C10.same/text", "C10.noleak", "C10.end"),
 				{Name: "C10.units", Pkg: "gtree", Entry: "VerifC10Units", N: 0, FSModel: true, RealParse: true, Expect: []string{"C10.err.units/same-unit", "C10.err.units/mixed-units"}},
 				gjf("C10.exists", "VerifC10Exists", 0, "C10.exists.simple", "C10.exists.err", "C10.exists.fs/partial"),
 				gjf("C10.reuse.n2", "VerifC10Reuse", 2, "C10.reuse.simple", "C10.reuse.err", "C10.reuse.same", "C10.reuse.end"),
@@ -287,10 +290,12 @@ func allChecksRaw() []*Check {
 				{Name: "C10.text.n4.lifo-wyield", Pkg: "gtree", Entry: "VerifC10", N: 14, FSModel: true, Sched: "lifo-wyield", Expect: []string{"C10.err/text", "C10.same/text", "C10.noleak", "C10.end"}},
 				{Name: "C10.text.n3.rnd8", Pkg: "gtree", Entry: "VerifC10", N: 13, FSModel: true, Sched: "rnd8", Expect: []string{"C10.err/text", "C10.same/text", "C10.noleak", "C10.end"}},
 				{Name: "C10.n2.rnd8", Pkg: "gtree", Entry: "VerifC10", N: 2, FSModel: true, Sched: "rnd8", Expect: []string{"C10.same/text", "C10.same/mkdir", "C10.noleak", "C10.end"}},
+				gjf("C10.bullets.n4.fifo", "VerifC10", 114, "C10.err/text", "C10.same/text", "C10.noleak", "C10.end"),
+				{Name: "C10.bullets.n3.lifo-lastsel", Pkg: "gtree", Entry: "VerifC10", N: 113, FSModel: true, Sched: "lifo-lastsel", Expect: []string{"C10.same/text", "C10.noleak", "C10.end"}},
 				{Name: "C10.units", Pkg: "gtree", Entry: "VerifC10Units", N: 0, FSModel: true, RealParse: true, Expect: []string{"C10.err.units/same-unit", "C10.err.units/mixed-units"}},
 				gjf("C10.exists", "VerifC10Exists", 0, "C10.exists.simple", "C10.exists.err", "C10.exists.fs/partial"),
 			},
-			Bounds: "documents of N rows (all operations: quick 2, thorough 3; text only: quick 3, thorough 4) from the family: roots as list items or # headings, children indented, one optional blank/whitespace-only row at any position (also leading), one optional malformed row (no bullet, empty text, nested two levels too deep); operations text, JSON or YAML records, dry-run report with an opaque extension, walk, mkdir with an opaque extension and verify on the file-system model; the real pipeline (splitter, 10+10+10 workers per stage, errgroup collectors) runs under a deterministic cooperative scheduler: policies FIFO, LIFO, each with first-ready or last-ready select case (quick: FIFO everywhere, LIFO/last-select for N=2); pseudo-random schedules rnd8 (thorough); for text output additionally the write-yield policies (the running goroutine goes to the back of the run queue after every Write on the output: a cooperative stand-in for preemption between printing goroutines, which is what makes a missing spreader lock visible). Byte level: two roots whose children are indented by i and j blanks, i,j in 1..4. Pre-existing root with two roots. Worker reuse: ten concrete three-level filler roots followed by a symbolic tail of 2 (quick) / 3 (thorough) rows, because blocks are handed to the ten workers of a stage in turn and per-worker state only matters from the 11th block on. NOT decided: equality under every schedule; data races.",
+			Bounds: "documents of N rows (all operations: quick 2, thorough 3; text only: quick 3, thorough 4) from the family: roots as list items or # headings, children indented, one optional blank/whitespace-only row at any position (also leading), one optional malformed row (no bullet, empty text, nested two levels too deep); the bullet family (text output, quick 3 / thorough 4 rows): list-item roots, each root row with its own list symbol -, * or +; operations text, JSON or YAML records, dry-run report with an opaque extension, walk, mkdir with an opaque extension and verify on the file-system model; the real pipeline (splitter, 10+10+10 workers per stage, errgroup collectors) runs under a deterministic cooperative scheduler: policies FIFO, LIFO, each with first-ready or last-ready select case (quick: FIFO everywhere, LIFO/last-select for N=2); pseudo-random schedules rnd8 (thorough); for text output additionally the write-yield policies (the running goroutine goes to the back of the run queue after every Write on the output: a cooperative stand-in for preemption between printing goroutines, which is what makes a missing spreader lock visible). Byte level: two roots whose children are indented by i and j blanks, i,j in 1..4. Pre-existing root with two roots. Worker reuse: ten concrete three-level filler roots followed by a symbolic tail of 2 (quick) / 3 (thorough) rows, because blocks are handed to the ten workers of a stage in turn and per-worker state only matters from the 11th block on. NOT decided: equality under every schedule; data races.",
 			Assume: append([]string{parseContract, pathContract, fsModel, encStub, "goroutines, channels, select, sync.WaitGroup/Mutex, context and errgroup are engine-native with Go semantics under a run-until-block scheduler (one interpreted goroutine runs at a time); every explored schedule is a legal Go schedule, the converse is not claimed"}, commonAssume...),
 		},
 		{
@@ -339,12 +344,15 @@ func allChecksRaw() []*Check {
 			Quick: []Job{
 				{Name: "C17.any.n4", Pkg: "gtree", Entry: "VerifC17", N: 4, FSModel: true, Wasm: true, Expect: []string{"C17.acc.any/text", "C17.acc.any/json", "C17.acc.any/dryrun", "C17.out.any/text", "C17.out.any/json", "C17.out.any/dryrun"}},
 				{Name: "C17.wf.n4", Pkg: "gtree", Entry: "VerifC17WF", N: 4, FSModel: true, Wasm: true, Expect: []string{"C17.out.wf/text", "C17.out.wf/json", "C17.out.wf/dryrun"}},
+				{Name: "C17.names.2x2", Pkg: "gtree", Entry: "VerifC17Names", N: 22, Wasm: true, Expect: []string{"C17.acc.names/text", "C17.acc.names/json", "C17.acc.names/dryrun", "C17.out.names/text", "C17.out.names/json", "C17.out.names/dryrun"}},
 			},
 			Thorough: []Job{
 				{Name: "C17.any.n5", Pkg: "gtree", Entry: "VerifC17", N: 5, FSModel: true, Wasm: true, Expect: []string{"C17.acc.any/text", "C17.acc.any/json", "C17.acc.any/dryrun", "C17.out.any/text", "C17.out.any/json", "C17.out.any/dryrun"}},
 				{Name: "C17.wf.n6", Pkg: "gtree", Entry: "VerifC17WF", N: 6, FSModel: true, Wasm: true, Expect: []string{"C17.out.wf/text", "C17.out.wf/json", "C17.out.wf/dryrun"}},
+				{Name: "C17.names.3x2", Pkg: "gtree", Entry: "VerifC17Names", N: 32, Wasm: true, Expect: []string{"C17.acc.names/text", "C17.acc.names/json", "C17.acc.names/dryrun", "C17.out.names/text", "C17.out.names/json", "C17.out.names/dryrun"}},
+				{Name: "C17.names.2x3", Pkg: "gtree", Entry: "VerifC17Names", N: 23, Wasm: true, Expect: []string{"C17.acc.names/text", "C17.acc.names/json", "C17.acc.names/dryrun", "C17.out.names/text", "C17.out.names/json", "C17.out.names/dryrun"}},
 			},
-			Bounds: "documents of N rows (quick 4, thorough 5): item rows at any depth up to two levels below the previous row (level jumps, indented first row), at most one blank / no-bullet / empty-text row at any position; and well-formed forests of N rows (quick 4, thorough 6); options: text with 4 opaque branch strings, JSON record, dry-run report with 0..1 opaque extension; both variants compiled into one SSA program (the tinywasm file set regenerated from /repo's working tree on every run). Outside: YAML/TOML (absent from the tinywasm variant), cmd/gtree-wasm's JavaScript glue.",
+			Bounds: "documents of N rows (quick 4, thorough 5): item rows at any depth up to two levels below the previous row (level jumps, indented first row), at most one blank / no-bullet / empty-text row at any position; and well-formed forests of N rows (quick 4, thorough 6); options: text with 4 opaque branch strings, JSON record, dry-run report with 0..1 opaque extension; both variants compiled into one SSA program (the tinywasm file set regenerated from /repo's working tree on every run). Byte level (real path code of both variants, no path contracts): forests of 2 rows x names of 1..2 arbitrary ASCII bytes (quick), 3 rows x 1..2 bytes and 2 rows x 1..3 bytes (thorough), so '.', '..' and names containing '/' occur as root and as child; text, JSON, dry-run with and without the extension '.x'. Outside: YAML/TOML (absent from the tinywasm variant), cmd/gtree-wasm's JavaScript glue.",
 			Assume: append([]string{parseContract, pathContract, encStub, "the tinywasm variant is type-checked and executed as package gtree/zz_verif_wasm with build tag verif standing in for tinywasm (file selection by the original constraints)"}, commonAssume...),
 		},
 	}
